@@ -88,7 +88,7 @@ func (t *Interface) GetField(name string) *FieldDef {
 
 // Validate a type.
 func (t *Interface) Validate(root *Root) (errs []error) {
-	return append(errs, t.validateFieldDefs(t.Name(), &t.fields)...)
+	return append(errs, t.validateFieldDefs(root, t.Name(), &t.fields)...)
 }
 
 // AddField is used to add fields to an interface.
